@@ -102,6 +102,18 @@ def watchdog(prog, res):
                             {"p:2"} <= f.anchors(c["lhs"]) | f.anchors(c["rhs"]) and strip_casts(c["lhs"]).get("k") == "ref", "false")
     rst = f.find_roots(lambda x: x.get("k") == "asg" and strip_casts(x["lhs"]).get("f") == "noForwardProgress" and const_val(x["rhs"]) == 0)
     res.check(bool(rst), R, "counter-reset-on-progress", f.loc, "counter reset when progress was made", "counter never reset")
+    # a stream that turned out to be a legacy frame is served by an early return of every later call: that path must do the same
+    # accounting, or a caller relying on the watchdog (full output / exhausted input) spins forever on legacy input
+    cont = guards.truthy_edges(f, lambda c: c.get("k") == "mem" and c.get("f") == "legacyVersion", truth=True)
+    lc = [(b, i) for b, i in f.call_roots("ZSTD_decompressLegacyStream") if cont and f.must_pass(via_edges=cont, targets=[(b, i)])]
+    if f.call_roots("ZSTD_decompressLegacyStream"):
+        rets = [(b, i) for b, i, r in f.returns()]
+        after = f.flow([(b, i + 1) for b, i in lc]) if lc else set()
+        tg = [t for t in rets if t in after]
+        ok = bool(lc) and bool(tg) and f.must_pass(via_roots=inc + rst, starts=[(b, i + 1) for b, i in lc], targets=tg) and any(t in after for t in inc)
+        res.check(ok, R, "legacy-path-is-watched", f.loc, "the continuing legacy path counts calls without progress too",
+                  "ZSTD_decompressStream returns from its continuing legacy branch without the no-forward-progress accounting: with a v0.5-v0.7 frame a caller that keeps "
+                  "calling with a full output or an empty input is never told (100000 calls without progress and no error)")
     res.need(R, 3)
 
 
